@@ -67,6 +67,13 @@ MUTANTS = [
     ("C13", "expand-wrong-row", "typhon/collocations/common.py", '        **{groups[1] + "/collocation": pairs[1]}', '        **{groups[1] + "/collocation": pairs[0]}'),
     ("C13", "rows-restart", "typhon/collocations/common.py", "        current_row[p] += 1", "        current_row[p] = 1"),
     ("C13", "concat-mutates-input", "typhon/collocations/collocator.py", "                data = data.copy(deep=True)\n", ""),
+    ("C12", "compress-on-exception", "typhon/files/utils.py", "        yield tfile\n        compress_as(tfile, fmt, filename, keep=True)", "        try:\n            yield tfile\n        finally:\n            compress_as(tfile, fmt, filename, keep=True)"),
+    ("C12", "no-unlink", "typhon/files/utils.py", "    finally:\n        os.unlink(tmpfile.name)", "    finally:\n        pass"),
+    ("C12", "unlink-only-on-success", "typhon/files/utils.py", "        yield tmpfile.name\n    finally:\n        os.unlink(tmpfile.name)", "        yield tmpfile.name\n        os.unlink(tmpfile.name)\n    finally:\n        pass"),
+    ("C12", "mkdtemp-leak", "typhon/files/utils.py", "    with tempfile.TemporaryDirectory(dir=tmpdir) as tdir:\n        tfile", "    if True:\n        tdir = tempfile.mkdtemp(dir=tmpdir)\n        tfile"),
+    ("C12", "xz-key", "typhon/files/utils.py", "    _known_compressions['xz'] = lzma.LZMAFile", "    _known_compressions['.xz'] = lzma.LZMAFile"),
+    ("C12", "bz2-as-plain-copy", "typhon/files/utils.py", "                elif fmt == \"bz2\" or fmt == \"xz\":\n                    with compfile(target, 'wb') as f_out:", "                elif fmt == \"bz2\" or fmt == \"xz\":\n                    with open(target, 'wb') as f_out:"),
+    ("C12", "swallow-compress-error", "typhon/files/utils.py", "    except Exception as e:\n        raise e\n    else:\n        if not keep:", "    except Exception as e:\n        pass\n    else:\n        if not keep:"),
 ]
 
 
